@@ -532,7 +532,7 @@ func (i *Interpreter) ProcessHit() error {
 func (i *Interpreter) ProcessPass() error {
 	i.SetScope(context.PassScope)
 
-	if i.ctx.Backend == nil {
+	if i.ctx.Backend == nil || (i.ctx.Backend.Value == nil && i.ctx.Backend.Director == nil) {
 		return exception.Runtime(nil, "No backend determined in PASS")
 	}
 
